@@ -108,7 +108,7 @@ var osFuncs = []string{
 type funcKey struct{ dir, name string }
 
 var osMutating = map[string]bool{"CreateTemp": true, "OpenFile": true, "WriteFile": true, "Rename": true, "Remove": true, "Create": true, "Truncate": true, "RemoveAll": true}
-var osClosureNames = map[string]bool{"CreateTemp": true, "OpenFile": true, "WriteFile": true, "ReadFile": true, "Rename": true, "Remove": true, "Open": true, "MkdirAll": true, "Stat": true}
+var osClosureNames = map[string]bool{"CreateTemp": true, "OpenFile": true, "WriteFile": true, "ReadFile": true, "Rename": true, "Remove": true, "Open": true, "MkdirAll": true, "Stat": true, "File": true}
 
 // osCalleeClosure: names (funcName form) of the functions of the package in absDir that are reachable from an
 // R2 function through calls within the package and contain a mutating os call themselves.
@@ -178,9 +178,10 @@ func osCalleeClosure(absDir, dir string, roots map[funcKey]bool) []string {
 		if roots[funcKey{dir, n}] {
 			continue
 		}
+		// ... or takes / returns / holds an os.File (a helper that is handed the temp file of an R2 function)
 		mut := false
-		ast.Inspect(decls[n].Body, func(x ast.Node) bool {
-			if se, ok := x.(*ast.SelectorExpr); ok && isPkgIdent(se.X, "os") && osMutating[se.Sel.Name] {
+		ast.Inspect(decls[n], func(x ast.Node) bool {
+			if se, ok := x.(*ast.SelectorExpr); ok && isPkgIdent(se.X, "os") && (osMutating[se.Sel.Name] || se.Sel.Name == "File") {
 				mut = true
 			}
 			return !mut
